@@ -19,6 +19,7 @@ use std::time::{Duration, Instant};
 
 use erg_common::python_util::PythonVersion;
 use erg_compiler::ty::codeobj::CodeObj;
+use erg_compiler::ty::value::ValueObj;
 use serde_json::{json, Value};
 
 thread_local! {
@@ -51,6 +52,33 @@ fn panic_msg(p: &Box<dyn std::any::Any + Send>) -> String {
         .unwrap_or_default()
 }
 
+fn hex(b: &[u8]) -> String {
+    b.iter().map(|x| format!("{x:02x}")).collect()
+}
+
+/// the decoded object in the canonical form py/c15_dump.py prints for CPython's own view of the same file
+fn canon_value(v: &ValueObj) -> Value {
+    match v {
+        ValueObj::Int(i) => json!(["int", i.to_string()]),
+        ValueObj::Nat(n) => json!(["int", n.to_string()]),
+        ValueObj::Bool(b) => json!(["bool", b]),
+        ValueObj::Float(f) => json!(["float", hex(&(**f).to_le_bytes())]),
+        ValueObj::Str(s) => json!(["str", hex(s.as_bytes())]),
+        ValueObj::None => json!(["none"]),
+        ValueObj::List(a) | ValueObj::Tuple(a) => json!(["tuple", a.iter().map(canon_value).collect::<Vec<_>>()]),
+        ValueObj::Code(c) => canon_code(c),
+        other => json!(["other", format!("{other}").chars().take(80).collect::<String>()]),
+    }
+}
+
+fn canon_code(c: &CodeObj) -> Value {
+    let names = |v: &Vec<erg_common::Str>| v.iter().map(|s| hex(s.as_bytes())).collect::<Vec<_>>();
+    json!(["code", hex(c.name.as_bytes()), c.consts.iter().map(canon_value).collect::<Vec<_>>(), names(&c.names), names(&c.varnames),
+           names(&c.freevars), names(&c.cellvars), hex(c.filename.as_bytes()),
+           {"argcount": c.argcount, "posonlyargcount": c.posonlyargcount, "kwonlyargcount": c.kwonlyargcount, "stacksize": c.stacksize, "flags": c.flags,
+            "firstlineno": c.firstlineno, "code": hex(&c.code)}])
+}
+
 /// what `erg --mode read` does with the file, split into its two stages
 fn read_like_erg(path: &str, want_roundtrip: Option<&[u8]>) -> (String, Value) {
     let parsed = catch_unwind(AssertUnwindSafe(|| CodeObj::from_pyc(path)));
@@ -65,17 +93,24 @@ fn read_like_erg(path: &str, want_roundtrip: Option<&[u8]>) -> (String, Value) {
         Ok(s) => s,
     };
     if let Some(orig) = want_roundtrip {
-        // the decoded object must carry everything that was in the file: writing it again gives the same bytes
+        // Up to 3.9 the writer stores the in-memory line table as it is, so writing the decoded object again must give
+        // the same bytes.  For 3.10 / 3.11 `into_bytes` *encodes* the line table into that version's format (it is not the
+        // inverse of the reader for that one field), so byte identity is not demanded there: the decoded object is instead
+        // compared field by field with CPython's view of the same file by the driver (the `view` below).
         let again = catch_unwind(AssertUnwindSafe(|| code.clone().into_bytes(ver)));
+        let mut same_bytes = Value::Null;
         match again {
             Err(p) => return ("roundtrip-differs".into(), json!({"loc": last_panic_loc(), "msg": panic_msg(&p)})),
             Ok(b) => {
-                if b.as_slice() != &orig[16..] {
+                let same = b.as_slice() == &orig[16..];
+                same_bytes = json!(same);
+                if !same && ver.minor < Some(10) {
                     let first = b.iter().zip(orig[16..].iter()).position(|(x, y)| x != y).unwrap_or(b.len().min(orig.len() - 16));
                     return ("roundtrip-differs".into(), json!({"first_difference_at": first + 16, "len_again": b.len() + 16, "len_file": orig.len()}));
                 }
             }
         }
+        return ("ok".into(), json!({"info_len": info.len(), "minor": ver.minor, "same_bytes": same_bytes, "view": canon_code(&code)}));
     }
     ("ok".into(), json!({"info_len": info.len(), "consts": code.consts.len(), "minor": ver.minor}))
 }
